@@ -172,7 +172,7 @@ func genC13World(c *Ctx) *c13world {
 	ns := 1 + c.W(3)
 	for i := 0; i < ns; i++ {
 		s := &c13schema{}
-		switch c.W(7) {
+		switch c.W(8) {
 		case 0:
 			s.Kind = "universe"
 			s.Uni = GenUniverse(c, UniOpts{Draft7: c.W(4) == 0, MaxDocs: 3})
@@ -203,6 +203,21 @@ func genC13World(c *Ctx) *c13world {
 			d := GenDefaultsWorld(c)
 			s.Text = d.Text
 			s.Insts = d.Insts
+		case 5:
+			// mixed dialects: a root of one draft with an embedded resource that declares the other
+			// one, each using keywords whose meaning depends on the draft in force
+			s.Kind = "mixed-draft"
+			old := `{"$schema":"http://json-schema.org/draft-07/schema#","$id":"http://m.test/old.json","items":[{"type":"integer"}],"additionalItems":false,"dependencies":{"x":["y"]}}`
+			neu := `{"$schema":"https://json-schema.org/draft/2020-12/schema","$id":"http://m.test/new.json","prefixItems":[{"type":"string"}],"items":false,"dependentRequired":{"x":["y"]}}`
+			if c.W(2) == 0 {
+				s.Text = `{"$schema":"https://json-schema.org/draft/2020-12/schema","properties":{"a":{"$ref":"#/$defs/old"},"b":{"prefixItems":[{"type":"string"}],"items":false},"c":{"$ref":"#/$defs/old"}},"$defs":{"old":` + old + `}}`
+			} else {
+				s.Text = `{"$schema":"http://json-schema.org/draft-07/schema#","properties":{"a":{"$ref":"#/definitions/new"},"b":{"items":[{"type":"integer"}],"additionalItems":false},"c":{"$ref":"#/definitions/new"}},"definitions":{"new":` + neu + `}}`
+			}
+			vals := []any{[]any{1.0, "x"}, []any{"s", 1.0}, []any{1.0}, []any{"s"}, map[string]any{"x": 1.0}, map[string]any{"x": 1.0, "y": 2.0}, []any{}, "str"}
+			for j := 0; j < 5; j++ {
+				s.Insts = append(s.Insts, map[string]any{"a": pick(c, vals), "b": pick(c, vals), "c": pick(c, vals)})
+			}
 		case 4:
 			s.Kind = "wide"
 			doc := GenWideDoc(c)
